@@ -218,6 +218,10 @@ def check(prog, run):
         except Und as e:
             ob("R-shift", "structure", None, str(e))
     poles_slot(prog, run)
+    # "extracting the modes at that order returns those values": the extraction rules of C11 are a necessary condition here too
+    from . import C11
+    C11.declare_extraction_rules(run, first_order=False, handover_min=None)
+    C11.extraction(prog, run, first_order=False, with_handover=False)
     mapform.map_obligations(prog, run, "R-map", "functions.ssi.ac2mp", {"calc_unc": False}, "calc_unc=False", (0, 1, 3))
     mapform.map_obligations(prog, run, "R-map", "functions.ssi.ac2mp", {"calc_unc": True}, "calc_unc=True", (0, 1, 3))
 
